@@ -338,64 +338,6 @@ fn main() {
     let only = r.args.extra_value("--stage").map(|s| s.to_string());
     let want = |s: &str| only.as_deref().is_none_or(|o| o == s);
 
-    if only.as_deref() == Some("bench") {
-        let m = TabModel::new(cfg_two(false));
-        let n = 20000;
-        let t = std::time::Instant::now();
-        for _ in 0..n {
-            std::hint::black_box(m.fresh());
-        }
-        println!("fresh: {:?}/op", t.elapsed() / n);
-        let evs = [Ev::Learn { table: 0, a: 0, b: 1, r: 0 }, Ev::Learn { table: 1, a: 1, b: 2, r: 2 }, Ev::Refresh { toggle_c: true, recreate_a: false, move_b: false, schema: Schema::AllPresent }, Ev::Learn { table: 0, a: 2, b: 2, r: 1 }, Ev::Learn { table: 0, a: 0, b: 0, r: 2 }];
-        for k in 0..evs.len() {
-            let t = std::time::Instant::now();
-            for _ in 0..n {
-                let mut o = m.fresh();
-                for e in &evs[..=k] {
-                    m.apply_ev(&mut o, e).unwrap();
-                }
-                std::hint::black_box(&o);
-            }
-            println!("fresh+{} events: {:?}/op", k + 1, t.elapsed() / n);
-        }
-        let mut o = m.fresh();
-        for e in &evs {
-            m.apply_ev(&mut o, e).unwrap();
-        }
-        let t = std::time::Instant::now();
-        for _ in 0..n {
-            m.verify(&o).unwrap();
-        }
-        println!("verify: {:?}/op", t.elapsed() / n);
-        let t = std::time::Instant::now();
-        for _ in 0..n {
-            std::hint::black_box(m.canon_bytes(&o));
-        }
-        println!("canon: {:?}/op", t.elapsed() / n);
-        let t = std::time::Instant::now();
-        for _ in 0..n {
-            std::hint::black_box(o.clone());
-        }
-        println!("clone obj: {:?}/op", t.elapsed() / n);
-        let t = std::time::Instant::now();
-        for _ in 0..n {
-            std::hint::black_box(o.world.clone());
-        }
-        println!("clone world: {:?}/op", t.elapsed() / n);
-        let t = std::time::Instant::now();
-        for _ in 0..n {
-            let mut c = o.clone();
-            m.apply_ev(&mut c, &evs[0]).unwrap();
-        }
-        println!("clone+learn: {:?}/op", t.elapsed() / n);
-        let t = std::time::Instant::now();
-        for _ in 0..n {
-            let mut c = o.clone();
-            m.apply_ev(&mut c, &evs[2]).unwrap();
-        }
-        println!("clone+refresh: {:?}/op", t.elapsed() / n);
-        std::process::exit(0);
-    }
     if want("one") {
         let (s1, t1) = run_bfs(&r, cfg_one(thorough), "one", r.tier().pick(50, 900));
         if thorough && r.violation_count() == 0 {
